@@ -4,7 +4,7 @@ from collections import defaultdict
 
 import numpy as truenp
 
-from .jacobi import jacobi, jacobi_der, jacobi_seq
+from .jacobi import jacobi, jacobi_der, jacobi_seq, _as_sequence
 
 from prysm.mathops import np, kronecker, sign, is_odd
 from prysm.util import sort_xy
@@ -274,6 +274,7 @@ def zernike_nm_der_seq(nms, r, t, norm=True):
     """
     # TODO: actually implement the recurrence relation as in zernike_seq,
     # instead of just using a loop for API homogenaeity
+    nms = _as_sequence(nms)
     # rows hold what the recurrence produces: floats, also for integer coordinates
     out = np.empty((len(nms), 2, *r.shape), dtype=np.result_type(r, 1.0))
     for j, (n, m) in enumerate(nms):
